@@ -547,3 +547,330 @@ pub fn glyph_with_class(rng: &mut Rng, cd: &T, class: i64) -> Option<i64> {
         Some(c[rng.below(c.len() as u64) as usize])
     }
 }
+
+// ---------------------------------------------------------------------------------------------------
+// GPOS subtables (C05).  value = (xp yp xa ya), anchor = (x y); grammar in ocaml/c05/drv.ml
+
+/// the fields of a value record selected by `fmt`, device offsets (bits 4-7) written as NULL
+pub fn ser_value(o: &mut Obj, fmt: i64, v: &T) {
+    let f = v.ints();
+    for bit in 0..8 {
+        if fmt & (1 << bit) != 0 {
+            o.u16(if bit < 4 { f[bit] } else { 0 });
+        }
+    }
+}
+
+/// Anchor table; the format (1, 2 or 3) is derived from the coordinates so that all three occur
+pub fn ser_anchor(a: &T) -> Vec<u8> {
+    let c = a.ints();
+    let mut o = Obj::new();
+    match (c[0] + 2 * c[1]).rem_euclid(3) {
+        0 => {
+            o.u16(1).u16(c[0]).u16(c[1]);
+        }
+        1 => {
+            o.u16(2).u16(c[0]).u16(c[1]).u16(7);
+        }
+        _ => {
+            o.u16(3).u16(c[0]).u16(c[1]).u16(0).u16(0);
+        }
+    }
+    o.finish()
+}
+
+fn ser_mark_array(marks: &T) -> Vec<u8> {
+    let mut o = Obj::new();
+    o.u16(marks.list().len() as i64);
+    for m in marks.list() {
+        let m = m.list();
+        o.u16(m[0].int()).off16(Some(ser_anchor(&m[1])));
+    }
+    o.finish()
+}
+
+/// rows of optional anchors, each row `class_count` offsets wide (BaseArray / LigatureAttach)
+fn ser_anchor_matrix(rows: &T, class_count: i64) -> Vec<u8> {
+    let mut o = Obj::new();
+    o.u16(rows.list().len() as i64);
+    for r in rows.list() {
+        let r = r.list();
+        for k in 0..class_count as usize {
+            o.off16(r.get(k).and_then(|a| a.opt()).map(ser_anchor));
+        }
+    }
+    o.finish()
+}
+
+pub fn ser_context(t: &T) -> Vec<u8> {
+    fn recs(o: &mut Obj, r: &T) {
+        for x in r.list() {
+            o.u16s(&x.ints());
+        }
+    }
+    fn sets(o: &mut Obj, sets: &T, rule: &dyn Fn(&T) -> Vec<u8>) {
+        o.u16(sets.list().len() as i64);
+        for s in sets.list() {
+            o.off16(s.opt().map(|rules| {
+                let mut so = Obj::new();
+                so.u16(rules.list().len() as i64);
+                for r in rules.list() {
+                    so.off16(Some(rule(r)));
+                }
+                so.finish()
+            }));
+        }
+    }
+    fn rule(r: &T) -> Vec<u8> {
+        let r = r.list();
+        let input = r[0].ints();
+        let mut o = Obj::new();
+        o.u16(input.len() as i64 + 1).u16(r[1].list().len() as i64).u16s(&input);
+        recs(&mut o, &r[1]);
+        o.finish()
+    }
+    let l = t.list();
+    let mut o = Obj::new();
+    match l[0].int() {
+        1 => {
+            o.u16(1).off16(Some(ser_coverage(&l[1])));
+            sets(&mut o, &l[2], &rule);
+        }
+        2 => {
+            o.u16(2).off16(Some(ser_coverage(&l[1]))).off16(Some(ser_classdef(&l[2])));
+            sets(&mut o, &l[3], &rule);
+        }
+        _ => {
+            o.u16(3).u16(l[1].list().len() as i64).u16(l[2].list().len() as i64);
+            for c in l[1].list() {
+                o.off16(Some(ser_coverage(c)));
+            }
+            recs(&mut o, &l[2]);
+        }
+    }
+    o.finish()
+}
+
+pub fn ser_chain_context(t: &T) -> Vec<u8> {
+    fn recs(o: &mut Obj, r: &T) {
+        for x in r.list() {
+            o.u16s(&x.ints());
+        }
+    }
+    fn crule(r: &T) -> Vec<u8> {
+        let r = r.list();
+        let (b, i, l) = (r[0].ints(), r[1].ints(), r[2].ints());
+        let mut o = Obj::new();
+        o.u16(b.len() as i64).u16s(&b);
+        o.u16(i.len() as i64 + 1).u16s(&i);
+        o.u16(l.len() as i64).u16s(&l);
+        o.u16(r[3].list().len() as i64);
+        recs(&mut o, &r[3]);
+        o.finish()
+    }
+    fn sets(o: &mut Obj, sets: &T) {
+        o.u16(sets.list().len() as i64);
+        for s in sets.list() {
+            o.off16(s.opt().map(|rules| {
+                let mut so = Obj::new();
+                so.u16(rules.list().len() as i64);
+                for r in rules.list() {
+                    so.off16(Some(crule(r)));
+                }
+                so.finish()
+            }));
+        }
+    }
+    fn cov_array(o: &mut Obj, covs: &T) {
+        o.u16(covs.list().len() as i64);
+        for c in covs.list() {
+            o.off16(Some(ser_coverage(c)));
+        }
+    }
+    let l = t.list();
+    let mut o = Obj::new();
+    match l[0].int() {
+        1 => {
+            o.u16(1).off16(Some(ser_coverage(&l[1])));
+            sets(&mut o, &l[2]);
+        }
+        2 => {
+            o.u16(2).off16(Some(ser_coverage(&l[1])));
+            o.off16(Some(ser_classdef(&l[2]))).off16(Some(ser_classdef(&l[3]))).off16(Some(ser_classdef(&l[4])));
+            sets(&mut o, &l[5]);
+        }
+        _ => {
+            o.u16(3);
+            cov_array(&mut o, &l[1]);
+            cov_array(&mut o, &l[2]);
+            cov_array(&mut o, &l[3]);
+            o.u16(l[4].list().len() as i64);
+            recs(&mut o, &l[4]);
+        }
+    }
+    o.finish()
+}
+
+pub fn ser_gpos_subtable(ty: i64, t: &T) -> Vec<u8> {
+    let l = t.list();
+    let mut o = Obj::new();
+    match ty {
+        1 => match l[0].int() {
+            1 => {
+                let fmt = l[2].int();
+                o.u16(1).off16(Some(ser_coverage(&l[1]))).u16(fmt);
+                ser_value(&mut o, fmt, &l[3]);
+            }
+            _ => {
+                let fmt = l[2].int();
+                o.u16(2).off16(Some(ser_coverage(&l[1]))).u16(fmt).u16(l[3].list().len() as i64);
+                for v in l[3].list() {
+                    ser_value(&mut o, fmt, v);
+                }
+            }
+        },
+        2 => match l[0].int() {
+            1 => {
+                let (f1, f2) = (l[2].int(), l[3].int());
+                o.u16(1).off16(Some(ser_coverage(&l[1]))).u16(f1).u16(f2).u16(l[4].list().len() as i64);
+                for set in l[4].list() {
+                    let mut so = Obj::new();
+                    so.u16(set.list().len() as i64);
+                    for pv in set.list() {
+                        let pv = pv.list();
+                        so.u16(pv[0].int());
+                        ser_value(&mut so, f1, &pv[1]);
+                        ser_value(&mut so, f2, &pv[2]);
+                    }
+                    o.off16(Some(so.finish()));
+                }
+            }
+            _ => {
+                let (f1, f2) = (l[2].int(), l[3].int());
+                let c2 = l[6].int();
+                o.u16(2).off16(Some(ser_coverage(&l[1]))).u16(f1).u16(f2);
+                o.off16(Some(ser_classdef(&l[4]))).off16(Some(ser_classdef(&l[5])));
+                o.u16(l[7].list().len() as i64).u16(c2);
+                let zero = T::of_ints(&[0, 0, 0, 0]);
+                for row in l[7].list() {
+                    let row = row.list();
+                    for k in 0..c2 as usize {
+                        match row.get(k) {
+                            Some(cell) => {
+                                ser_value(&mut o, f1, &cell.list()[0]);
+                                ser_value(&mut o, f2, &cell.list()[1]);
+                            }
+                            None => {
+                                ser_value(&mut o, f1, &zero);
+                                ser_value(&mut o, f2, &zero);
+                            }
+                        }
+                    }
+                }
+            }
+        },
+        3 => {
+            o.u16(1).off16(Some(ser_coverage(&l[0]))).u16(l[1].list().len() as i64);
+            for r in l[1].list() {
+                let r = r.list();
+                o.off16(r[0].opt().map(ser_anchor)).off16(r[1].opt().map(ser_anchor));
+            }
+        }
+        4 | 6 => {
+            let n = l[2].int();
+            o.u16(1).off16(Some(ser_coverage(&l[0]))).off16(Some(ser_coverage(&l[1]))).u16(n);
+            o.off16(Some(ser_mark_array(&l[3]))).off16(Some(ser_anchor_matrix(&l[4], n)));
+        }
+        5 => {
+            let n = l[2].int();
+            o.u16(1).off16(Some(ser_coverage(&l[0]))).off16(Some(ser_coverage(&l[1]))).u16(n);
+            o.off16(Some(ser_mark_array(&l[3])));
+            let mut la = Obj::new();
+            la.u16(l[4].list().len() as i64);
+            for att in l[4].list() {
+                la.off16(Some(ser_anchor_matrix(att, n)));
+            }
+            o.off16(Some(la.finish()));
+        }
+        7 => return ser_context(t),
+        8 => return ser_chain_context(t),
+        _ => panic!("gpos lookup type {}", ty),
+    }
+    o.finish()
+}
+
+/// layout = (opt scripts, opt features, opt lookups) -> GPOS table bytes (extension lookup type 9)
+pub fn ser_gpos(layout: &T) -> Vec<u8> {
+    let l = layout.list();
+    let lookups = l[2].opt().map(|lks| {
+        ser_lookup_list(
+            lks.list()
+                .iter()
+                .map(|lk| {
+                    let f = lk.list();
+                    let ty = f[3].int();
+                    let subs = f[4].list().iter().map(|s| ser_gpos_subtable(ty, s)).collect();
+                    ser_lookup(ty, f[1].int(), f[2].opt().map(|x| x.int()), subs, if f[0].int() != 0 { Some(9) } else { None })
+                })
+                .collect(),
+        )
+    });
+    ser_layout_table(l[0].opt().map(ser_script_list), l[1].opt().map(ser_feature_list), lookups)
+}
+
+/// kern = ((coverage (0 (l r v) ...)) | (coverage (2 lfirst (lv ...) rfirst (rv ...) (byte ...))) ...) -> kern table v0
+pub fn ser_kern(subtables: &T) -> Vec<u8> {
+    let mut out: Vec<u8> = vec![];
+    let push = |out: &mut Vec<u8>, v: i64| out.extend_from_slice(&(v as u16).to_be_bytes());
+    push(&mut out, 0);
+    push(&mut out, subtables.list().len() as i64);
+    for st in subtables.list() {
+        let st = st.list();
+        let cov = st[0].int();
+        let d = st[1].list();
+        let mut body: Vec<u8> = vec![];
+        let format = d[0].int();
+        if format == 0 {
+            let n = d.len() as i64 - 1;
+            push(&mut body, n);
+            push(&mut body, 0);
+            push(&mut body, 0);
+            push(&mut body, 0);
+            for p in &d[1..] {
+                for v in p.ints() {
+                    push(&mut body, v);
+                }
+            }
+        } else {
+            // header: rowWidth, leftClassTable, rightClassTable, array (offsets from the subtable start)
+            let (lv, rv, arr) = (d[2].ints(), d[4].ints(), d[5].ints());
+            let left_off = 6 + 8;
+            let right_off = left_off + 4 + 2 * lv.len() as i64;
+            let arr_off = right_off + 4 + 2 * rv.len() as i64;
+            // the reader takes row_width * right_table.len() bytes as the kerning array
+            let row_width = if rv.is_empty() { 0 } else { arr.len() as i64 / rv.len() as i64 };
+            push(&mut body, row_width);
+            push(&mut body, left_off);
+            push(&mut body, right_off);
+            push(&mut body, arr_off);
+            push(&mut body, d[1].int());
+            push(&mut body, lv.len() as i64);
+            for v in &lv {
+                push(&mut body, *v);
+            }
+            push(&mut body, d[3].int());
+            push(&mut body, rv.len() as i64);
+            for v in &rv {
+                push(&mut body, *v);
+            }
+            for b in &arr {
+                body.push(*b as u8);
+            }
+        }
+        push(&mut out, 0);
+        push(&mut out, 6 + body.len() as i64);
+        push(&mut out, (format << 8) | (cov & 0xFF));
+        out.extend_from_slice(&body);
+    }
+    out
+}
